@@ -4,6 +4,7 @@ import (
 	"fmt"
 	"go/constant"
 	"go/token"
+	"sort"
 
 	"ikeverif/checker/xt/ssa"
 )
@@ -123,22 +124,35 @@ func RunC16(c *Ctx, r *Report) {
 		}
 	}
 	r.Check(okErr, rule, "the refusal is an error without keys", c.Pos(fn.Pos()), "an early return with five nil keys and a non-nil error precedes the loop", "no error-only return precedes the key derivation")
-	// Write / Sum on hm
+	// Write(s) / Sum on hm: the round's input is what is written before Sum(nil), in order (one Write of the
+	// concatenation or several Writes of its pieces are the same octet stream to a hash)
+	var writes []*ssa.Call
 	var write, sum *ssa.Call
 	for _, ref := range *hm.Referrers() {
 		if call, ok := ref.(*ssa.Call); ok && call.Call.IsInvoke() && call.Call.Value == ssa.Value(hm) {
 			switch call.Call.Method.Name() {
 			case "Write":
-				write = call
+				writes = append(writes, call)
 			case "Sum":
 				sum = call
 			}
 		}
 	}
-	if write == nil || sum == nil || !isNilConst(sum.Call.Args[0]) || !dominatesInstr(write, sum) {
-		r.bad(rule, "T(n) = HMAC(K, data): one Write then Sum(nil)", c.InstrPos(hm), "the round does not Write once and then Sum(nil)")
+	sort.Slice(writes, func(i, j int) bool { return dominatesInstr(writes[i], writes[j]) && writes[i] != writes[j] })
+	okOrder := len(writes) > 0 && sum != nil && isNilConst(sum.Call.Args[0])
+	for i := range writes {
+		if i+1 < len(writes) && !dominatesInstr(writes[i], writes[i+1]) {
+			okOrder = false
+		}
+		if sum != nil && !dominatesInstr(writes[i], sum) {
+			okOrder = false
+		}
+	}
+	if !okOrder {
+		r.bad(rule, "T(n) = HMAC(K, data): Write(s), then Sum(nil)", c.InstrPos(hm), "the round does not write its input and then Sum(nil) on one straight path")
 		return
 	}
+	write = writes[0]
 	// φ-nodes: prev, MK, i
 	var prevPhi, mkPhi, iPhi *ssa.Phi
 	for _, ins := range li.header.Instrs {
@@ -179,29 +193,69 @@ func RunC16(c *Ctx, r *Report) {
 	r.Check(emptyInit(prevPhi) && emptyInit(mkPhi), rule, "T(0) is empty and MK starts empty", c.InstrPos(prevPhi), "prev and MK are initialised to empty slices; prev = Sum(nil), MK = MK | Sum(nil) each round", "prev or MK does not start empty")
 	// data = prev | S | byte(i+1)
 	okData, dd := false, "written data is not prev | sBase | byte(i+1)"
-	if parts, ok := c.concatOf(f, write.Call.Args[0], write, 0); ok {
+	var parts []cpart
+	okParts := true
+	for _, w := range writes {
+		ps, ok := c.concatOf(f, w.Call.Args[0], w, 0)
+		if !ok || len(ps) == 0 {
+			// an opaque slice value: one piece
+			ps = []cpart{{Kind: "slice", Val: w.Call.Args[0], Len: f.SliceLen(w.Call.Args[0])}}
+		}
+		parts = append(parts, ps...)
+	}
+	isLabel := func(v ssa.Value) bool { // []byte("EAP-AKA'")
+		cv, ok := v.(*ssa.Convert)
+		if !ok {
+			return false
+		}
+		k, ok := cv.X.(*ssa.Const)
+		return ok && k.Value != nil && k.Value.Kind() == constant.String && constant.StringVal(k.Value) == "EAP-AKA'"
+	}
+	isIdentity := func(v ssa.Value) bool { // identity, []byte(identity)
+		if v == ssa.Value(id) {
+			return true
+		}
+		cv, ok := v.(*ssa.Convert)
+		return ok && cv.X == ssa.Value(id)
+	}
+	counterStartsAt := int64(-1)
+	if okParts {
 		parts = dropEmpty(parts)
 		dd = "written data is " + partsString(f, parts) + ", expected T(n-1) | \"EAP-AKA'\" | Identity | byte(n)"
-		if len(parts) == 3 && parts[0].Kind == "slice" && parts[0].Val == ssa.Value(prevPhi) && parts[1].Kind == "slice" && parts[2].Kind == "byte" {
+		if len(parts) >= 3 && parts[0].Kind == "slice" && parts[0].Val == ssa.Value(prevPhi) && parts[len(parts)-1].Kind == "byte" {
 			okS := false
-			// S = []byte("EAP-AKA'" + identity)
-			if cv, ok := parts[1].Val.(*ssa.Convert); ok {
-				if cat, ok := cv.X.(*ssa.BinOp); ok && cat.Op == token.ADD && cat.Y == ssa.Value(id) {
-					if k, ok := cat.X.(*ssa.Const); ok && k.Value != nil && k.Value.Kind() == constant.String && constant.StringVal(k.Value) == "EAP-AKA'" {
-						okS = true
-					} else {
-						dd = "S does not start with the constant \"EAP-AKA'\""
+			mid := parts[1 : len(parts)-1]
+			switch {
+			case len(mid) == 1 && mid[0].Kind == "slice":
+				// S = []byte("EAP-AKA'" + identity), or append([]byte("EAP-AKA'"), identity...)
+				if cv, ok := mid[0].Val.(*ssa.Convert); ok {
+					if cat, ok := cv.X.(*ssa.BinOp); ok && cat.Op == token.ADD && cat.Y == ssa.Value(id) {
+						if k, ok := cat.X.(*ssa.Const); ok && k.Value != nil && k.Value.Kind() == constant.String && constant.StringVal(k.Value) == "EAP-AKA'" {
+							okS = true
+						} else {
+							dd = "S does not start with the constant \"EAP-AKA'\""
+						}
 					}
 				}
+				if ap := isAppendCall(mid[0].Val); ap != nil && isLabel(ap.Call.Args[0]) && isIdentity(ap.Call.Args[1]) {
+					okS = true
+				}
+			case len(mid) == 2 && mid[0].Kind == "slice" && mid[1].Kind == "slice":
+				okS = isLabel(mid[0].Val) && isIdentity(mid[1].Val)
 			}
-			// the counter octet byte(i+1)
+			// the counter octet: byte(i+1) with i from 0, or byte(n) with n from 1
 			okN := false
-			if b, ok := unwrapByteConv(parts[2].Val).(*ssa.BinOp); ok && b.Op == token.ADD && b.X == ssa.Value(iPhi) {
+			cv := unwrapByteConv(parts[len(parts)-1].Val)
+			if b, ok := cv.(*ssa.BinOp); ok && b.Op == token.ADD && b.X == ssa.Value(iPhi) {
 				if k, ok := b.Y.(*ssa.Const); ok {
 					if one, _ := constInt64(k.Value); one == 1 {
 						okN = true
+						counterStartsAt = 0
 					}
 				}
+			} else if cv == ssa.Value(iPhi) {
+				okN = true
+				counterStartsAt = 1
 			}
 			if okS && okN {
 				okData = true
@@ -217,7 +271,7 @@ func RunC16(c *Ctx, r *Report) {
 	rounds := int64(0)
 	for _, e := range iPhi.Edges {
 		if k, ok := e.(*ssa.Const); ok {
-			if v, _ := constInt64(k.Value); v == 0 {
+			if v, _ := constInt64(k.Value); v == counterStartsAt {
 				okI = true
 			}
 		}
@@ -235,13 +289,18 @@ func RunC16(c *Ctx, r *Report) {
 		}
 	}
 	if iff, ok := li.header.Instrs[len(li.header.Instrs)-1].(*ssa.If); ok {
-		if cond, ok := iff.Cond.(*ssa.BinOp); ok && cond.Op == token.LSS && cond.X == ssa.Value(iPhi) {
+		if cond, ok := iff.Cond.(*ssa.BinOp); ok && (cond.Op == token.LSS || cond.Op == token.LEQ) && cond.X == ssa.Value(iPhi) {
 			if k, ok := cond.Y.(*ssa.Const); ok {
-				rounds, _ = constInt64(k.Value)
+				bound, _ := constInt64(k.Value)
+				// number of values the counter takes: start .. bound-1 (or bound)
+				rounds = bound - counterStartsAt
+				if cond.Op == token.LEQ {
+					rounds++
+				}
 			}
 		}
 	}
-	r.Check(okI && rounds*32 >= 208, rule, "round counter 0.., at least 7 rounds", c.InstrPos(iPhi), fmt.Sprintf("%d rounds of 32 octets >= 208", rounds), fmt.Sprintf("%d rounds do not yield 208 octets of key material, or the counter is not 0,1,2,...", rounds))
+	r.Check(okI && rounds*32 >= 208, rule, "round counter from its first value in steps of 1, at least 7 rounds", c.InstrPos(iPhi), fmt.Sprintf("%d rounds of 32 octets >= 208", rounds), fmt.Sprintf("%d rounds do not yield 208 octets of key material, or the counter is not 0,1,2,...", rounds))
 	// result slices
 	want := [][2]int64{{0, 16}, {16, 48}, {48, 80}, {80, 144}, {144, 208}}
 	names := []string{"K_encr", "K_aut", "K_re", "MSK", "EMSK"}
